@@ -93,6 +93,41 @@ func freeIdents(e ast.Expr) map[string]bool {
 	return out
 }
 
+// substTypeParams: contracts of generic functions are type-checked with the
+// type parameters replaced by `any` (a function literal cannot be generic).
+func substTypeParams(t types.Type) types.Type {
+	anyT := types.Universe.Lookup("any").Type()
+	switch u := t.(type) {
+	case *types.TypeParam:
+		return anyT
+	case *types.Pointer:
+		return types.NewPointer(substTypeParams(u.Elem()))
+	case *types.Slice:
+		return types.NewSlice(substTypeParams(u.Elem()))
+	case *types.Array:
+		return types.NewArray(substTypeParams(u.Elem()), u.Len())
+	case *types.Map:
+		return types.NewMap(substTypeParams(u.Key()), substTypeParams(u.Elem()))
+	case *types.Named:
+		if ta := u.TypeArgs(); ta != nil && ta.Len() > 0 {
+			args := make([]types.Type, ta.Len())
+			changed := false
+			for i := 0; i < ta.Len(); i++ {
+				args[i] = substTypeParams(ta.At(i))
+				if args[i] != ta.At(i) {
+					changed = true
+				}
+			}
+			if changed {
+				if inst, err := types.Instantiate(nil, u.Origin(), args, false); err == nil {
+					return inst
+				}
+			}
+		}
+	}
+	return t
+}
+
 func (fr *Frame) qualifier() types.Qualifier {
 	return func(p *types.Package) string {
 		if fr.pkg != nil && p == fr.pkg.Types {
@@ -224,7 +259,7 @@ func (fr *Frame) compile(cl *Clause, loop *Loop, extraTypes map[string]types.Typ
 		if i > 0 {
 			sb.WriteString(", ")
 		}
-		sb.WriteString(n + " " + types.TypeString(nameTypes[n], fr.qualifier()))
+		sb.WriteString(n + " " + types.TypeString(substTypeParams(nameTypes[n]), fr.qualifier()))
 	}
 	if cl.Kind == "lemma" {
 		sb.WriteString(") { " + text + " }")
